@@ -21,7 +21,7 @@ class C06(Prop):
     design_ref = '§5 C06'
     rule = ('source kind x element count 0..8 x last-element-flagged x failing source x schedules of request(n) (n in 1,2,3,7,2^31-1), partial runs of 1..3 loop iterations, quiescence points '
             'and cancel; plus each source behind a RequestStreamResponder / channel with REQUEST_N frames arriving between iterations; non-trivial = credit arrives in at least two '
-            'instalments or is exhausted before the end; distinct = distinct case; bursts of 17..100 small grants that are all there before the producer runs once (direct calls and REQUEST_N frames in one read); collector: limit rate 1..5 / 2^31-1 x limit count none/1..12 x 0..9 elements x end (flagged element, COMPLETE, ERROR, none) x '
+            'instalments or is exhausted before the end; distinct = distinct case; grants issued inside on_subscribe; bursts of 17..100 small grants that are all there before the producer runs once (direct calls and REQUEST_N frames in one read); collector: limit rate 1..5 / 2^31-1 x limit count none/1..12 x 0..9 elements x end (flagged element, COMPLETE, ERROR, none) x '
             'bursts of 1..4 frames per loop iteration, stream and channel; requester-side grants: Subscription.request(n) issued before / between / after the writes of a request frame of 1..8 fragments on a link that blocks in every write')
     assumptions = []
 
